@@ -1398,8 +1398,23 @@ impl<'a> Lowerer<'a> {
     fn lower_macro_expand(&self, node: GreenNodeId) -> (ExprNodeId, Vec<ExprNodeId>) {
         let args = self.lower_arg_list(node);
 
-        // Check for qualified path first (e.g., mod::macrofn!())
-        if let Some(path_node) = self.find_child(node, |kind| kind == SyntaxKind::QualifiedPath)
+        // Check for qualified path first (e.g., mod::macrofn!()).
+        // The macro name is what precedes `!`: a qualified path among the arguments
+        // (e.g., macrofn!(mod::x)) is not the name.
+        let name_path_node = self
+            .arena
+            .children(node)
+            .into_iter()
+            .flatten()
+            .copied()
+            .take_while(|child| {
+                self.get_token_index(*child)
+                    .and_then(|idx| self.tokens.get(idx))
+                    .map(|t| t.kind)
+                    != Some(TokenKind::MacroExpand)
+            })
+            .find(|child| self.arena.kind(*child) == Some(SyntaxKind::QualifiedPath));
+        if let Some(path_node) = name_path_node
             && let Some(path) = self.lower_qualified_path(path_node)
         {
             let path_span = self.node_span(path_node).unwrap_or(0..0);
